@@ -151,9 +151,13 @@ Definition step (m : mode) (s : cstate) (e : ev) : option cstate :=
       | Some t =>
           match tpc t with
           | Fm k e =>
-              if negb (f =? 0) then Some (set_pc i t (Unreg k e f) s)
-              else if memn k (snk s) then Some (set_pc i t (Unreg k e 0) s)
-              else Some (begin_base m i t [k] e k s)
+              match m with
+              | MDedup =>
+                  if negb (f =? 0) then Some (set_pc i t (Unreg k e f) s)
+                  else if memn k (snk s) then Some (set_pc i t (Unreg k e 0) s)
+                  else Some (begin_base m i t [k] e k s)
+              | _ => None
+              end
           | Get d rest e =>
               let b := if negb (f =? 0) then f else if memn d (src s) then 0 else 5 in
               Some (set_pc i t (Put d b rest e) s)
